@@ -23,7 +23,8 @@ LEVEL_TEXT = ("held on N generated event histories (regular / operating-point pr
               "target changes in a step; every Request observed is checked. Exploration of histories.")
 LEVEL_NOTE = ("battery pool stubbed at _data_pipeline.new_battery_pool (bounds channel fed by the harness); events are "
               "separated by quiescence so each request is judged against the state it was computed from; missing "
-              "target counts as 0")
+              "target counts as 0"
+              ' Build phase: managers of batteries, EV chargers and solar inverters; manager created by PowerWrapper; equal priorities within and across kinds; bursts with a no-loss monitor at the algorithm boundary; NaN proposal bounds; factory tier (microgrid.new_*_pool on a real _DataPipeline).')
 RULE = ("random histories of 3-40 events over 1-2 component groups, 1-3 regular and 1-2 operating-point actors with "
         "distinct priorities; plus the two documented operating-point tables as fixed cases. distinct = canonical "
         "history JSON; non-trivial = >=1 request observed after both resolvers hold a target")
